@@ -47,13 +47,9 @@ impl PacketHeader {
 }
 
 impl IndexPacketHeader {
-//@item src/packet.rs const ID owner=IndexPacketHeader
-//@enditem
-//@item src/packet.rs const SIZE owner=IndexPacketHeader
-//@enditem
+//@consts src/packet.rs IndexPacketHeader
 //@fn src/packet.rs IndexPacketHeader read serves=C03,C08,C09 ret=r
 //@rw reader: &mut dyn Read ==> reader: &mut PagedReader
-//@rw u16::from_le_bytes\(buffer\[(\d+)\.\.(\d+)\]\.try_into\(\)\.internal_err\(WRONG_OFFSET\)\?\) ==> shim_le_u16(&buffer, \1, \2)?
 //@rw for value in buffer\.iter\(\)\.skip\(7\) \{ ==> for vi in 7..buffer.len() { let value = &buffer[vi];
 //@sig
         requires old(reader).wf(),
@@ -68,13 +64,9 @@ impl IndexPacketHeader {
 }
 
 impl DataPacketHeader {
-//@item src/packet.rs const ID owner=DataPacketHeader
-//@enditem
-//@item src/packet.rs const SIZE owner=DataPacketHeader
-//@enditem
+//@consts src/packet.rs DataPacketHeader
 //@fn src/packet.rs DataPacketHeader read serves=C03,C08,C09 ret=r
 //@rw reader: &mut dyn Read ==> reader: &mut PagedReader
-//@rw u16::from_le_bytes\(buffer\[(\d+)\.\.(\d+)\]\.try_into\(\)\.internal_err\(WRONG_OFFSET\)\?\) ==> shim_le_u16(&buffer, \1, \2)?
 //@sig
         requires old(reader).wf(),
         ensures final(reader).wf(), final(reader).same_file(old(reader)),
@@ -86,13 +78,9 @@ impl DataPacketHeader {
 }
 
 impl IgnoredPacketHeader {
-//@item src/packet.rs const ID owner=IgnoredPacketHeader
-//@enditem
-//@item src/packet.rs const SIZE owner=IgnoredPacketHeader
-//@enditem
+//@consts src/packet.rs IgnoredPacketHeader
 //@fn src/packet.rs IgnoredPacketHeader read serves=C03,C08,C09 ret=r
 //@rw reader: &mut dyn Read ==> reader: &mut PagedReader
-//@rw u16::from_le_bytes\(buffer\[(\d+)\.\.(\d+)\]\.try_into\(\)\.internal_err\(WRONG_OFFSET\)\?\) ==> shim_le_u16(&buffer, \1, \2)?
 //@sig
         requires old(reader).wf(),
         ensures final(reader).wf(), final(reader).same_file(old(reader)),
@@ -108,11 +96,9 @@ impl IgnoredPacketHeader {
 //@item src/cv_section.rs struct CompressedVectorSectionHeader
 //@enditem
 impl CompressedVectorSectionHeader {
-//@item src/cv_section.rs const SIZE owner=CompressedVectorSectionHeader
-//@enditem
+//@consts src/cv_section.rs CompressedVectorSectionHeader
 //@fn src/cv_section.rs CompressedVectorSectionHeader read serves=C03,C08,C09,C17 ret=r
 //@rw reader: &mut dyn Read ==> reader: &mut PagedReader
-//@rw u64::from_le_bytes\(\s*buffer\[(\d+)\.\.(\d+)\]\.try_into\(\)\.internal_err\(WRONG_OFFSET\)\?,?\s*\) ==> shim_le_u64(&buffer, \1, \2)?
 //@sig
         requires old(reader).wf(),
         ensures final(reader).wf(), final(reader).same_file(old(reader)),
@@ -279,7 +265,6 @@ impl<'a> QueueReader<'a> {
 impl<'a> QueueReader<'a> {
 //@fn src/queue_reader.rs QueueReader advance serves=C03,C08,C09,C17,C01 ret=r
 //@rw vec!\[0; ([^;]*)\];\n ==> shim_vec_u8_zeros(\1);\n
-//@rw u16::from_le_bytes\(buf\) ==> shim_u16_from_le_bytes(buf)
 //@rw for \(i, bs\) in self\.buffer_sizes\.iter\(\)\.enumerate\(\) \{ ==> for i in 0..self.buffer_sizes.len() { let bs = &self.buffer_sizes[i];
 //@rw self\.buffer\.resize\(\*bs, 0_u8\) ==> shim_resize_u8(&mut self.buffer, *bs)
 //@rw for \(i, bs\) in self\.byte_streams\.iter\(\)\.enumerate\(\) \{ ==> for i in 0..self.byte_streams.len() { let bs = &self.byte_streams[i];
